@@ -208,12 +208,99 @@ def ops_stream(ctx, spec, st, replay, scale, hbin, coqc_shards):
     return {"stats": stats, "rejections": rejections, "monitor_failures": mfails, "samples": samples}
 
 
+def generic_stream(tag, sub, line_re, slices, obs_keys, nontrivial, dist_fn):
+    """factory for streams whose harness subcommand writes <sub>_<shard>.v/.json and whose
+    checker prints one '<TAG> ... END' line per observation"""
+    def run(ctx, spec, st, replay, scale, hbin, coqc_shards):
+        pid = ctx.pid
+        out = os.path.join(ctx.work, sub + "_" + st["name"])
+        os.makedirs(out, exist_ok=True)
+        shards = 16
+        master = ctx.seed * 1000 + st.get("salt", 0)
+        frm, count, profile = 0, st["count"][ctx.tier] * scale, st.get("profile", "mixed")
+        if replay:
+            rp = json.load(open(replay))
+            if rp.get("stream") != sub:
+                return {"stats": {}, "rejections": [], "monitor_failures": [], "samples": []}
+            master, frm, count, profile, shards = rp["master"], rp["idx"], 1, rp["profile"], 1
+        t0 = time.time()
+        p = subprocess.run([hbin, sub, "--master", str(master), "--from", str(frm), "--count", str(count),
+                            "--shards", str(shards), "--profile", profile, "--out-dir", out],
+                           stdout=subprocess.PIPE, stderr=subprocess.STDOUT, text=True, timeout=3000)
+        t_h = time.time() - t0
+        if p.returncode != 0:
+            payload = {"stream": sub, "master": master, "idx": frm, "profile": profile, "kind": "harness-crash",
+                       "output": p.stdout[-2000:], "property": pid}
+            return {"stats": {"observations": 0, "harness_exit": p.returncode}, "rejections": [],
+                    "monitor_failures": [payload], "samples": []}
+        t1 = time.time()
+        outs = coqc_shards(ctx, sorted(glob_(out, sub + "_*.v")))
+        t_c = time.time() - t1
+        obs = {}
+        for jf in glob_(out, sub + "_*.json"):
+            for o in json.load(open(jf)):
+                obs[o["idx"]] = o
+        lines, coq_errors = [], []
+        for vf, (rc, text) in outs.items():
+            if rc != 0 or "Error" in text:
+                coq_errors.append((vf, text[-1500:]))
+            for m in re.finditer(r'"%s ([^"]*) END"' % tag, text):
+                lines.append(m.group(1))
+        expected = sum(1 for o in obs.values() if not o.get("skipped") and o.get("judged", True))
+        rejections, mfails, samples = [], [], []
+        dist = collections.Counter()
+        sigs = set()
+        nontriv = 0
+        for ln in lines:
+            kv = dict(x.split("=", 1) for x in ln.split())
+            idx = int(kv["idx"])
+            o = obs.get(idx, {})
+            base = {"stream": sub, "master": master, "idx": idx, "profile": profile, "property": pid, "verdict": ln,
+                    "observation": {k: o.get(k) for k in obs_keys}}
+            acc = kv["acc"]
+            if acc != "ok" and slices(pid, acc):
+                rejections.append(dict(base, kind="acceptor-rejection", how=acc))
+            if kv.get(pid) == "0":
+                mfails.append(dict(base, kind="monitor-false", monitor="mon_" + pid))
+            sig = hashlib.sha1(json.dumps({k: o.get(k) for k in obs_keys}, sort_keys=True).encode()).hexdigest()
+            if sig not in sigs:
+                sigs.add(sig)
+                if nontrivial(o, kv):
+                    nontriv += 1
+            dist_fn(dist, o, kv)
+            if len(samples) < 1 and len(json.dumps(base["observation"])) < 1800:
+                samples.append(dict(base["observation"], stream=sub, idx=idx, verdict=ln))
+        if coq_errors or len(lines) != expected:
+            rejections.append({"stream": sub, "master": master, "profile": profile, "property": pid,
+                               "kind": "checker-error", "expected": expected, "judged": len(lines), "errors": coq_errors[:2]})
+        stats = {"observations": len(lines), "generated": len(obs), "distinct": len(sigs), "distinct_nontrivial": nontriv,
+                 "rule": "%s stream (master=%d, profile=%s); distinct = different observation contents" % (sub, master, profile),
+                 "harness_s": round(t_h, 1), "coqc_s": round(t_c, 1), "distribution": dict(dist)}
+        return {"stats": stats, "rejections": rejections, "monitor_failures": mfails, "samples": samples}
+    return run
+
+
+def _spec_dist(dist, o, kv):
+    dist["mode_%s" % {0: "wellformed", 1: "violation", 2: "soup"}.get(o.get("mode"), "?")] += 1
+    dist["result_" + str(o.get("result"))] += 1
+    if o.get("note"):
+        dist["note: " + o["note"]] += 1
+
+
+spec_stream = generic_stream(
+    "SPEC", "spec", None,
+    # which acceptor outcomes count against C10: accept/reject or spec disagreements (error-kind differences do not)
+    lambda pid, acc: acc.startswith("rej"),
+    ("yaml", "note", "expect", "result"),
+    lambda o, kv: o.get("mode") in (0, 1),
+    _spec_dist)
+
 def glob_(d, pat):
     import glob
     return glob.glob(os.path.join(d, pat))
 
 
-STREAMS = {"run": run_stream, "ops": ops_stream}
+STREAMS = {"run": run_stream, "ops": ops_stream, "spec": spec_stream}
 
 CTL_FILES = ["theories/Ctl.vo", "theories/CtlProofs.vo"]
 
@@ -267,4 +354,18 @@ PROPS = {
     "C17": _ops_prop("C17", [{"kind": "ops", "name": "p1", "profile": "p1", "count": {"quick": 320, "thorough": 6000}, "salt": 17}],
                      tested=["benchmark battery (known-optimum problems) and 'within a few attempts' for reals/ints: statements about one pseudo-random trajectory, tested only",
                              "rank monotonicity of selection for 0 < pressure < 1 (probabilities): not yet proved; the relation only says which ranks are possible"]),
+    "C10": {
+        "propfile": "theories/Properties/C10.v",
+        "coq_targets": ["theories/Properties/C10.vo"],
+        "checkers": ["SpecCheck"],
+        "streams": [{"kind": "spec", "name": "mixed", "profile": "mixed", "count": {"quick": 960, "thorough": 16000}, "salt": 10}],
+        "assumptions": [
+            "the model starts from the serde_yaml::Value tree; YAML text -> tree (serde_yaml 0.9, incl. duplicate-key rejection, tags, number classes) is exercised, not modelled",
+            "HashMap<String, Box<Node>> of sub members / variant options is modelled as an association list with replace-on-equal-key",
+        ],
+        "tested_not_proved": [
+            "that spec_util::build_node refines SpecBuild.build_node: every generated document (well-formed with hoisted/shadowed typeDefs, single-rule violations, attribute soups incl. tags and non-string keys) is built by both and the results compared (accept/reject and the spec exactly; the error kind is compared but a difference there alone is not counted)",
+            "'every declared parameter present' is checked by the monitor members_present on every accepted document; a declarative Denotes relation is not yet proved equivalent to build",
+        ],
+    },
 }
